@@ -250,7 +250,7 @@ LeafWhys(c, lf) ==
     IF res.kind = "ok" /\ c.ent.k # "panic" /\ SepEntropyFixed /\ ~SameFloat(res.ent, c.ent) THEN "P:C06:Password.Entropy-differs-from-recipe-Entropy()" ELSE "ok",
     \* the choices of this very run are made with probability 1/pp (pp = product of the bounds of all its draws, each index having
     \* probability 1/bound by C01) and determine the password, so the password has at least that probability: pp >= 2^Entropy
-    IF res.kind = "ok" /\ lf.unann = 0 /\ lf.left = 0 /\ res.ent.k = "fin" /\ lf.pp # <<>> /\ ~EntropyNotAbove(res.ent, lf.pp, Tol)
+    IF lf.ppc = 1 /\ res.kind = "ok" /\ lf.unann = 0 /\ lf.left = 0 /\ res.ent.k = "fin" /\ lf.pp # <<>> /\ ~EntropyNotAbove(res.ent, lf.pp, Tol)
       THEN "P:C06:the-choices-that-produced-this-password-are-likelier-than-2^-Entropy" ELSE "ok",
     \* Process!LimitsAreTheCallers: MaxTrials / MaxFailRate are the caller's; a call that writes them (even to put them back later)
     \* races with every concurrent call that reads them, and runs itself under limits nobody configured
